@@ -204,7 +204,7 @@ pub fn index_nested() -> Report {
 // ------------------------------------------------------------------ C09
 /// rewrite keeps what every position resolves to
 pub fn rewrite() -> Report {
-    let bound = "maps over sources listed in orders different from first use (3 names, one duplicated / unreferenced), contents on a subset, names on/off, contents on/off, prefixes {none, 'pre', 'pre/'}";
+    let bound = "maps over sources listed in orders different from first use (3 names, one duplicated / unreferenced), contents on a subset, names on/off, contents on/off, prefixes {none, 'pre', 'pre/'}; plus 6 sources that start with the prefix text at and off a component boundary x 7 prefix lists (several prefixes, nested prefixes) x source root {none, relative, with '/', absolute}";
     let mut cases = 0u64;
     let listed: Vec<Vec<&str>> = vec![vec!["pre/a.js", "pre/b.js"], vec!["pre/b.js", "pre/a.js"], vec!["unused.js", "pre/b.js", "pre/a.js"], vec!["pre/a.js", "pre/a.js", "pre/b.js"], vec!["pre/b.js", "unused.js", "pre/a.js", "pre/b.js"]];
     for srcs in &listed { for cmask in 0u32..(1 << srcs.len()) { for first in 0..srcs.len() { for with_names in [true, false] { for with_contents in [true, false] { for prefix in [None, Some("pre"), Some("pre/")] {
@@ -240,6 +240,22 @@ pub fn rewrite() -> Report {
             if !after.iter().any(|a| &a.2 == s) { return r("rewrite", bound, cases, Some(format!("rewritten sources contain the unreferenced {s}: {outs:?}"))); } }
         if out.get_file() != Some("f.js") { return r("rewrite", bound, cases, Some("file not preserved".into())); }
     } } } } } }
+    // prefixes must match at a path-component boundary only; several prefixes (first match wins); a source root is folded into the names, not re-applied
+    let srcs2 = ["pre/a.js", "pre-gen/b.js", "prefix.js", "pre", "other/pre/c.js", "pre/pre/d.js"];
+    let prefix_sets: Vec<Vec<&str>> = vec![vec![], vec!["pre"], vec!["pre/"], vec!["zzz", "pre"], vec!["pre/pre", "pre"], vec!["root/pre"], vec!["other"]];
+    for root in [None, Some("root"), Some("root/"), Some("/abs")] { for prefixes in &prefix_sets { for first in 0..srcs2.len() {
+        cases += 1;
+        let raw: Vec<RawToken> = (0..srcs2.len()).map(|k| { let i = (first + k) % srcs2.len(); RawToken { dst_line: 0, dst_col: 3 * k as u32, src_line: i as u32, src_col: 1, src_id: i as u32, name_id: !0, is_range: false } }).collect();
+        let mut sm = SourceMap::new(Some("f.js".into()), raw, vec![], srcs2.iter().map(|s| (*s).into()).collect(), None);
+        sm.set_source_root(root);
+        let before: Vec<(u32, String, u32)> = sm.tokens().map(|t| (t.get_dst_col(), t.get_source().unwrap_or("").to_string(), t.get_src_line())).collect();
+        let opts = RewriteOptions { strip_prefixes: prefixes, ..Default::default() };
+        let out = match guarded(|| sm.rewrite(&opts)) { Ok(Ok(m)) => m, o => return r("rewrite", bound, cases, Some(format!("rewrite failed: {:?}", o.map(|x| x.map(|_| ()))))) };
+        let after: Vec<(u32, String, u32)> = out.tokens().map(|t| (t.get_dst_col(), t.get_source().unwrap_or("").to_string(), t.get_src_line())).collect();
+        let strip = |s: &str| -> String { for p in prefixes.iter() { let pp = if p.ends_with('/') { p.to_string() } else { format!("{p}/") }; if let Some(rest) = s.strip_prefix(pp.as_str()) { return rest.to_string(); } } s.to_string() };
+        let want: Vec<(u32, String, u32)> = before.iter().map(|b| (b.0, strip(&b.1), b.2)).collect();
+        if after != want { return r("rewrite", bound, cases, Some(format!("sources {srcs2:?} with source root {root:?}, strip_prefixes {prefixes:?}: tokens (col, source, line) {before:?} became {after:?}, expected {want:?}"))); }
+    } } }
     r("rewrite", bound, cases, None)
 }
 
@@ -406,7 +422,7 @@ pub fn root_setters() -> Report {
 }
 /// builder as an interning model
 pub fn builder_model() -> Report {
-    let bound = "all sequences of <= 4 operations from add_source / add_name over {'a','b',''} and set_source_contents(id, Some/None) over ids {0,1,2}";
+    let bound = "all sequences of <= 4 operations from add_source / add_name over {'a','b',''} and set_source_contents(id, Some/None) over ids {0,1,2}; all sequences of <= 3 add() calls over 6 source/name combinations (each present or absent)";
     let mut cases = 0u64;
     #[derive(Clone, Debug)] enum Op { Src(&'static str), Name(&'static str), Cont(u32, Option<&'static str>) }
     let mut ops = vec![]; for s in ["a", "b", ""] { ops.push(Op::Src(s)); ops.push(Op::Name(s)); } for i in 0..3 { ops.push(Op::Cont(i, Some("c"))); ops.push(Op::Cont(i, None)); }
@@ -429,6 +445,26 @@ pub fn builder_model() -> Report {
             let want = cont.get(i).cloned().flatten(); if sm.get_source_contents(i as u32).map(|x| x.to_string()) != want { return r("builder_model", bound, cases, Some(format!("{seq:?}: finished map contents of source {i} = {:?}, model {want:?}", sm.get_source_contents(i as u32)))); } }
         for (i, s) in names.iter().enumerate() { if sm.get_name(i as u32) != Some(s) { return r("builder_model", bound, cases, Some(format!("{seq:?}: finished map name {i} wrong"))); } }
     }
+    // add(): every added token resolves to exactly the strings it was added with, whatever mix of source / name is given
+    let opts: Vec<(Option<&str>, Option<&str>)> = vec![(None, None), (Some("a.js"), None), (None, Some("n")), (Some("a.js"), Some("n")), (Some("b.js"), Some("m")), (None, Some("m"))];
+    let mut tseqs: Vec<Vec<usize>> = vec![vec![]]; let mut tlayer: Vec<Vec<usize>> = vec![vec![]];
+    for _ in 0..3 { let mut next = vec![]; for s in &tlayer { for o in 0..opts.len() { let mut t = s.clone(); t.push(o); next.push(t); } } tseqs.extend(next.iter().cloned()); tlayer = next; }
+    for seq in &tseqs {
+        cases += 1;
+        let mut b = SourceMapBuilder::new(None);
+        let (mut srcs, mut names): (Vec<&str>, Vec<&str>) = (vec![], vec![]);
+        for (k, &o) in seq.iter().enumerate() {
+            let (sname, nname) = opts[o];
+            let raw = b.add(0, 2 * k as u32, k as u32, 1, sname, nname, false);
+            let ws = sname.map(|s| srcs.iter().position(|x| *x == s).unwrap_or_else(|| { srcs.push(s); srcs.len() - 1 }) as u32).unwrap_or(!0);
+            let wn = nname.map(|s| names.iter().position(|x| *x == s).unwrap_or_else(|| { names.push(s); names.len() - 1 }) as u32).unwrap_or(!0);
+            if (raw.src_id, raw.name_id) != (ws, wn) { return r("builder_model", bound, cases, Some(format!("add calls {:?}: call #{k} returned (src_id, name_id) = ({}, {}), the interning model says ({ws}, {wn})", seq.iter().map(|&o| opts[o]).collect::<Vec<_>>(), raw.src_id, raw.name_id))); }
+        }
+        let sm = b.into_sourcemap();
+        for (k, &o) in seq.iter().enumerate() { let t = sm.get_token(k).unwrap();
+            if (t.get_source(), t.get_name()) != opts[o] { return r("builder_model", bound, cases, Some(format!("add calls {:?}: token #{k} resolves to ({:?}, {:?})", seq.iter().map(|&o| opts[o]).collect::<Vec<_>>(), t.get_source(), t.get_name()))); } }
+        if sm.get_name_count() as usize != names.len() || sm.get_source_count() as usize != srcs.len() { return r("builder_model", bound, cases, Some(format!("add calls {:?}: {} sources / {} names in the finished map, model {} / {}", seq.iter().map(|&o| opts[o]).collect::<Vec<_>>(), sm.get_source_count(), sm.get_name_count(), srcs.len(), names.len()))); }
+    }
     r("builder_model", bound, cases, None)
 }
 
@@ -448,16 +484,16 @@ fn stretches(mut starts: Vec<(P, usize)>) -> Vec<(P, P, usize)> {
 /// `dups`: allow duplicated positions (the statement's "non-empty overlap" clause; see known finding D10)
 pub fn adjust(dups: bool) -> Report {
     let name: &'static str = if dups { "adjust_dups" } else { "adjust" };
-    let bound = "original maps of <= 3 tokens over generated positions {0,1}x{0,3,6} and adjustment maps of <= 3 tokens over original positions {0,1}x{0,2,3,6} with generated displacement {(0,0),(0,+2),(+1,-1... clipped)}, every order of the adjustment tokens";
+    let bound = "original maps of <= 3 tokens over generated positions {0,1}x{0,3,6} and adjustment maps of <= 3 tokens over original positions {0,1}x{0,2,3,6} with generated displacement {(0,0),(0,+2),(+1,0),(+2,+5),(0,-2),(-1,0),(-1,-2)} wherever the generated position stays >= 0, every order of the adjustment tokens";
     let mut cases = 0u64;
     let mut known: Option<String> = None;
     let opos: Vec<P> = vec![(0, 0), (0, 3), (0, 6), (1, 0), (1, 3)];
     let apos: Vec<P> = vec![(0, 0), (0, 2), (0, 3), (0, 6), (1, 0), (1, 2)];
-    let disp: Vec<(i32, i32)> = vec![(0, 0), (0, 2), (1, 0), (2, 5)];
+    let disp: Vec<(i32, i32)> = vec![(0, 0), (0, 2), (1, 0), (2, 5), (0, -2), (-1, 0), (-1, -2)];
     let mut olists: Vec<Vec<P>> = vec![vec![]]; let mut layer: Vec<Vec<P>> = vec![vec![]];
     for _ in 0..3 { let mut next = vec![]; for l in &layer { for &p in &opos { if l.last().map_or(false, |q| if dups { *q > p } else { *q >= p }) { continue; } let mut t = l.clone(); t.push(p); next.push(t); } } olists.extend(next.iter().cloned()); layer = next; }
     let mut alists: Vec<Vec<(P, usize)>> = vec![vec![]]; let mut alayer: Vec<Vec<(P, usize)>> = vec![vec![]];
-    for _ in 0..2 { let mut next = vec![]; for l in &alayer { for &p in &apos { if l.iter().any(|q| q.0 == p) { continue; } for d in 0..disp.len() { let mut t = l.clone(); t.push((p, d)); next.push(t); } } } alists.extend(next.iter().cloned()); alayer = next; }
+    for _ in 0..2 { let mut next = vec![]; for l in &alayer { for &p in &apos { if l.iter().any(|q| q.0 == p) { continue; } for d in 0..disp.len() { if (p.0 as i32 + disp[d].0) < 0 || (p.1 as i32 + disp[d].1) < 0 { continue; } let mut t = l.clone(); t.push((p, d)); next.push(t); } } } alists.extend(next.iter().cloned()); alayer = next; }
     for ol in &olists { for al in &alists {
         cases += 1;
         let otoks: Vec<RawToken> = ol.iter().enumerate().map(|(i, &(l, c))| RawToken { dst_line: l, dst_col: c, src_line: 10 + i as u32, src_col: i as u32, src_id: 0, name_id: !0, is_range: i == 1 }).collect();
@@ -534,7 +570,7 @@ pub fn decode_extreme() -> Report {
 /// kind dispatch, lenient conversions, debug id precedence, sourceRoot joining, optional keys in any combination
 pub fn decode_document() -> Report {
     use sourcemap::decode_slice;
-    let bound = "documents with every combination of 9 optional keys (sections / x_facebook_sources / file string|number / names with numbers and null / null sources / sourceRoot / debug_id / debugId / junk header), keys in two orders";
+    let bound = "documents with every combination of 9 optional keys (sections / x_facebook_sources / file string|number / names with numbers and null / null sources / sourceRoot / debug_id / debugId / junk header), keys in two orders; index documents with two sections of every kind pair (regular / Hermes / nested index), offsets given in and out of order";
     let mut cases = 0u64;
     let id1 = "00000000-0000-0000-0000-000000000001"; let id2 = "00000000-0000-0000-0000-000000000002";
     for mask in 0u32..(1 << 9) { for reversed in [false, true] {
@@ -579,5 +615,21 @@ pub fn decode_document() -> Report {
         let got_short: Vec<_> = toks.iter().map(|t| (t.0, t.1, t.2)).collect(); let want_short: Vec<_> = wt.iter().map(|t| (t.0, t.1, t.2)).collect();
         if got_short != want_short { return r("decode_document", bound, cases, Some(format!("document {doc}: tokens (line, col, source) {got_short:?}, expected {want_short:?}"))); }
     } }
+    // index documents: every section goes through the same kind dispatch (regular / Hermes / nested index), sections come out ordered by offset
+    let kinds = [("regular", r#"{"version":3,"sources":["a.js"],"names":[],"mappings":"AAAA"}"#),
+                 ("hermes", r#"{"version":3,"sources":["a.js"],"names":[],"mappings":"AAAA","x_facebook_sources":[[{"names":["<global>","foo"],"mappings":"AAA,CCA"}]]}"#),
+                 ("index", r#"{"version":3,"sections":[{"offset":{"line":0,"column":0},"map":{"version":3,"sources":["n.js"],"names":[],"mappings":"AAAA"}}]}"#)];
+    for (k1, d1) in &kinds { for (k2, d2) in &kinds { for swapped in [false, true] {
+        cases += 1;
+        let (o1, o2) = if swapped { ((3, 0), (0, 0)) } else { ((0, 0), (3, 0)) };
+        let doc = format!(r#"{{"version":3,"sections":[{{"offset":{{"line":{},"column":{}}},"map":{d1}}},{{"offset":{{"line":{},"column":{}}},"map":{d2}}}]}}"#, o1.0, o1.1, o2.0, o2.1);
+        let dm = match guarded(|| decode_slice(doc.as_bytes())) { Ok(Ok(m)) => m, o => return r("decode_document", bound, cases, Some(format!("index document {doc} does not decode: {:?}", o.map(|x| x.map(|_| ()).map_err(|e| e.to_string()))))) };
+        let idx = match dm { DecodedMap::Index(i) => i, _ => return r("decode_document", bound, cases, Some(format!("document {doc} with sections is not decoded as an index map"))) };
+        let want: Vec<((u32, u32), &str)> = if swapped { vec![((0, 0), *k2), ((3, 0), *k1)] } else { vec![((0, 0), *k1), ((3, 0), *k2)] };
+        let got: Vec<((u32, u32), &str)> = idx.sections().map(|s| (s.get_offset(), match s.get_sourcemap() { Some(DecodedMap::Regular(_)) => "regular", Some(DecodedMap::Hermes(_)) => "hermes", Some(DecodedMap::Index(_)) => "index", None => "none" })).collect();
+        if got != want { return r("decode_document", bound, cases, Some(format!("index document {doc}: sections (offset, kind) {got:?}, expected {want:?}"))); }
+        for s in idx.sections() { if let Some(DecodedMap::Hermes(h)) = s.get_sourcemap() { let t = h.get_token(0).unwrap();
+            if h.get_scope_for_token(t) != Some("<global>") { return r("decode_document", bound, cases, Some(format!("index document {doc}: the Hermes section lost its function map (scope {:?})", h.get_scope_for_token(t)))); } } }
+    } } }
     r("decode_document", bound, cases, None)
 }
